@@ -49,6 +49,8 @@
 //   of vlen bytes, one shared trigger A_ of length tlo) are stored, then the k-th allocation (operator new) during ONE store of
 //   key K<k>_ (same syntax as the S step of exh) throws std::bad_alloc.  One answer token per k:
 //   <fired 0|1>:<keys>/<triggers>:<fetch of the key: h1|h0|m>:<live heap bytes after clear() minus those of the empty cache>:<index flags|ok>
+//   (`!` in front of <keys> when std::bad_alloc came out of store()).   inj2 ...: the same, but the allocation AFTER the failing one fails
+//   too: with a limit this is the bucket vector nl_clear() re-creates inside the bad_alloc handler of store
 //
 //              injf <limit> <t0> <klen> <vlen> <kmax>
 //   failure injection into fetch on a thread_shared cache holding three entries A B C (stored in that order): for k = 1..kmax the
@@ -81,7 +83,15 @@ static long live_bytes = 0;
 // failure injection for the thread_shared back end (std::allocator -> operator new): the fail_countdown-th allocation from now throws
 static volatile long fail_countdown = 0;
 static volatile bool fail_fired = false;
-static inline void maybe_fail() { if(fail_countdown>0 && --fail_countdown==0) { fail_fired=true; throw std::bad_alloc(); } }
+static volatile long fail_burst = 1;	// number of consecutive allocations that fail once the countdown is reached
+static inline void maybe_fail()
+{
+	if(fail_countdown>0 && --fail_countdown==0) {
+		fail_fired=true;
+		if(fail_burst>1) { fail_burst--; fail_countdown=1; }
+		throw std::bad_alloc();
+	}
+}
 // exact accounting: the requested size is kept in a 16-byte header in front of every block (malloc_usable_size would make the balance
 // depend on how glibc happens to split its chunks: the same request can come back 16 bytes larger)
 static inline void *cnt_alloc(size_t n)
@@ -491,7 +501,7 @@ struct exh_job {
 
 
 struct inj_job {
-	unsigned limit; size_t klen,vlen; long nt; std::string tspec; unsigned kmax,npre;
+	unsigned limit; size_t klen,vlen; long nt; std::string tspec; unsigned kmax,npre; int burst;
 	std::string operator()() const {
 		cache_ptr c=cppcms::impl::thread_cache_factory(limit);
 		tcache *tc=static_cast<tcache *>(c.get());
@@ -502,7 +512,7 @@ struct inj_job {
 		long base=0;
 		for(unsigned k=0;k<=kmax;k++) {
 			unsigned ks=0,ts=0;
-			bool fired=false;
+			bool fired=false,threw=false,broken=false;
 			char const *fetched="m";
 			char cs[200];
 			{
@@ -515,18 +525,22 @@ struct inj_job {
 				std::set<std::string> tr;
 				for(long j=0;j<nt;j++) tr.insert(padded('T',k,j,tlen_of(tspec,j),'t'));
 				if(k>0) {
-					fail_fired=false; fail_countdown=k;
-					c->store(key,val,tr,vnow+1000);
-					fail_countdown=0; fired=fail_fired;
+					fail_fired=false; fail_burst=burst; fail_countdown=k;
+					try { c->store(key,val,tr,vnow+1000); } catch(std::bad_alloc const &) { threw=true; }
+					fail_countdown=0; fail_burst=1; fired=fail_fired;
 				}
 				c->stats(ks,ts);
 				snprintf(cs,sizeof(cs),"%s",consistency(tc).c_str());
-				if(c->fetch(key,back,0)) fetched = back==val ? "h1" : "h0";
-				c->clear();
+				if(strcmp(cs,"ok")==0) {	// stale indexes point at deleted entries: do not walk them
+					if(c->fetch(key,back,0)) fetched = back==val ? "h1" : "h0";
+					c->clear();
+				}
+				else broken=true;
 			}
 			if(k==0) { base=live_bytes; continue; }
 			if(off+400<sizeof(outbuf))
-				off+=snprintf(outbuf+off,sizeof(outbuf)-off,"%s%d:%u/%u:%s:%ld:%s",off?" ":"",fired?1:0,ks,ts,fetched,live_bytes-base,cs);
+				off+=snprintf(outbuf+off,sizeof(outbuf)-off,"%s%d:%s%u/%u:%s:%ld:%s",off?" ":"",fired?1:0,threw?"!":"",ks,ts,fetched,broken?0:live_bytes-base,cs);
+			if(broken) break;
 		}
 		return std::string(outbuf,off);
 	}
@@ -623,8 +637,8 @@ int main(int argc,char **argv)
 			j.klen=strtoul(v[3].c_str(),0,10); j.vlen=strtoul(v[4].c_str(),0,10); j.kmax=strtoul(v[5].c_str(),0,10);
 			out=in_child(j);
 		}
-		else if(v.size()==9 && v[0]=="inj") {
-			inj_job j; j.limit=strtoul(v[1].c_str(),0,10); vnow=strtoll(v[2].c_str(),0,10);
+		else if(v.size()==9 && (v[0]=="inj" || v[0]=="inj2")) {
+			inj_job j; j.burst = v[0]=="inj2" ? 2 : 1; j.limit=strtoul(v[1].c_str(),0,10); vnow=strtoll(v[2].c_str(),0,10);
 			j.klen=strtoul(v[3].c_str(),0,10); j.vlen=strtoul(v[4].c_str(),0,10); j.nt=strtol(v[5].c_str(),0,10); j.tspec=v[6];
 			j.kmax=strtoul(v[7].c_str(),0,10); j.npre=strtoul(v[8].c_str(),0,10);
 			out=in_child(j);
